@@ -11,14 +11,26 @@ RULE = ("generated lexicons (1-4 rules; Str/Any/AnyBut/Range/Seq/Alt/Opt/Rep/Rep
         "oracles (event-level derivative matcher; Python's re.fullmatch for lexicons without Bol/Eol/Eof); "
         "distinct by (lexicon, text); TransitionMap: operation histories (exhaustive <= 2 ops over 9 split "
         "points, random 3-8 ops) vs model map vs a brute-force code->set function")
-EXPLANATION = ("theorems (Prop/C50.v): TransitionMap refines a function code -> state set for every operation "
-               "history, keeps its sorted/sentinel invariant, binary search terminates; subset construction: "
-               "DFA state after any event word = set of NFA states reachable on it, action = highest priority; "
-               "scanner loop: longest accepting prefix with backup, failure iff no accepting prefix; "
-               "derivative matcher correct w.r.t. the denotational language. "
-               "partial: regex -> NFA (build_machine) is tied to the reference language only by the "
-               "correspondence run; termination of the worklist / epsilon-closure recursion is by explicit fuel "
-               "(out-of-fuel is an explicit result, excluded by hypothesis; never observed in the runs).")
+EXPLANATION = ("theorems (Prop/C50.v, all closed under the global context): (1) TransitionMap: split's binary search "
+               "terminates within hi-lo steps, add/add_set never fail, keep the sorted/sentinel invariant and refine "
+               "the function code -> state set for every operation history, items() lists exactly the segments "
+               "with a non-empty set (or all when S_0 is non-empty); (2) nfa_to_dfa: for every NFA with well-formed "
+               "maps and every event word the DFA state reached is the set of NFA states reachable on the word "
+               "(epsilon moves included), its action the highest-priority action of that set, blocked iff nothing "
+               "is reachable; (3) run_machine_inlined/scan_a_token: for every DFA and text the token is the longest "
+               "accepted event prefix with the scanner state saved there, ('',None)/UnrecognizedInput iff no prefix "
+               "is accepted, the loop ends within 3*len+8 steps; (2)+(3) composed (lexer_pipeline); (4) the "
+               "derivative matcher decides the denotational language and ref_longest returns the longest prefix / "
+               "earliest rule; chars_to_ranges: refuted as it is, correct when de-duplicated. "
+               "partial: Regexps.build_machine (RE -> NFA = the language ere_of) is NOT proved - it is tied by the "
+               "correspondence run (real NFA dump == model NFA, tokens == extracted derivative matcher == harness "
+               "oracles); that build_machine keeps the maps well formed is checked per lexicon (nfa_ok) instead of "
+               "proved. Out-of-fuel of the nfa_to_dfa worklist / epsilon-closure recursion is the explicit result "
+               "None; C50_nfa_to_dfa_terminates proves it cannot occur with fuel above 2^(NFA states) when all "
+               "transition targets are states of the machine (never observed in the runs).")
+LEVEL_TEXT = ("proof for the transition maps, the subset construction, the scanner loop and the reference matcher "
+              "(universally quantified, Coq); the regex -> NFA construction and the derived constructors "
+              "(Str/Any/AnyBut/Range/Opt/Rep) are covered by the three-way correspondence run only")
 TRUSTED = ["Python set/dict/list semantics (sets of Nodes modelled as finite sets of state numbers; iteration "
            "order only affects DFA state numbering, compared up to renumbering)",
            "the per-Node epsilon_closure memo and the 4096-character buffer refill of the scanner are abstracted "
@@ -268,14 +280,11 @@ def oracle_events(rules_o, text, ntok, memo):
             if all(q == O_EMPTY for q in cur):
                 break
         if best is None:
-            if pos >= len(ev):
-                out.append("POSTEOF")           # nothing left at all (an Eof token was consumed)
-            elif ev[pos] == ("F",):
-                out.append("EOF")
-            elif start == len(text):
-                out.append("END")               # only pseudo-events left: EOF or error, see check
-            else:
-                out.append("ERR")
+            # no rule matches.  Characters left: the property demands an error.  Only pseudo-events
+            # (EOL/EOF) left: the scanner answers ('', None) or UnrecognizedInput depending on how far the
+            # failed attempt advanced (it does not restore its state on failure); the property does not
+            # say which, the model/implementation tie pins it exactly.
+            out.append("END" if start == len(text) else "ERR")
             return out
         k, rule = best
         stop = off[k - 1] if k else 0
@@ -638,6 +647,39 @@ def dup_class(r):
     return any(isinstance(x, list) and dup_class(x) for x in r[1:])
 
 
+def widened_chars(x):
+    """the characters Any(x) really matches on the unchanged tree (one extra code per repeated character)"""
+    cl = sorted(x)
+    out, i = set(), 0
+    while i < len(cl):
+        c1 = ord(cl[i]); c2 = c1 + 1; i += 1
+        while i < len(cl) and c2 >= ord(cl[i]):
+            c2 += 1; i += 1
+        out |= set(range(c1, c2))
+    return "".join(map(chr, sorted(out)))
+
+
+def widen(r):
+    if r[0] in ("Any", "AnyBut"):
+        return [r[0], widened_chars(r[1])]
+    return [r[0]] + [widen(x) if isinstance(x, list) else x for x in r[1:]]
+
+
+def events_agree(got, exp):
+    if len(exp) != len(got):
+        return False
+    for g, e in zip(got, exp):
+        if isinstance(e, tuple):
+            if not (isinstance(g, list) and tuple(g[:5]) == e):
+                return False
+        elif e == "ERR":
+            if g != "ERR":
+                return False
+        elif g not in ("EOF", "ERR"):
+            return False
+    return True
+
+
 def classify(lexicon, text):
     if any(dup_class(r) for r in lexicon):
         return "any_duplicate_chars"
@@ -772,6 +814,7 @@ def check(ctx, lexicons, texts, hists, c2r_strings=()):
         # oracles
         rules_o = [o_of(r) for r in lx]
         memo = {}
+        rules_w = memo_w = None
         pats = None
         if not special:
             pats = [pyre.compile(pat_of(r)) for r in lx]
@@ -800,22 +843,15 @@ def check(ctx, lexicons, texts, hists, c2r_strings=()):
                     ctx.corr_break("plex:reference-matcher(Coq)", inp, got, rt)
             # 2. implementation vs event-level oracle
             exp = oracle_events(rules_o, t, ntok, memo)
-            bad = len(exp) != len(got)
-            if not bad:
-                for g, e in zip(got, exp):
-                    if isinstance(e, tuple):
-                        if not (isinstance(g, list) and tuple(g[:5]) == e):
-                            bad = True
-                    elif e == "EOF":
-                        bad = bad or g != "EOF"
-                    elif e == "ERR":
-                        bad = bad or g != "ERR"
-                    elif e == "END":
-                        bad = bad or g not in ("EOF", "ERR")
-                    elif e == "POSTEOF":
-                        bad = bad or g not in ("EOF", "ERR")
-            if bad:
+            if not events_agree(got, exp):
                 kl = classify(lx, t)
+                if kl == "any_duplicate_chars" and not C2R_DEDUP:
+                    # the known finding explains the difference only if the implementation equals the
+                    # reference reading of the lexicon with the widened character classes
+                    if rules_w is None:
+                        rules_w, memo_w = [o_of(widen(r)) for r in lx], {}
+                    if not events_agree(got, oracle_events(rules_w, t, ntok, memo_w)):
+                        kl = "wrong_token"
                 nfail[kl] = nfail.get(kl, 0) + 1
                 if nfail[kl] <= 10 or kl == "any_duplicate_chars":
                     ctx.fail(kl, inp, got, [list(e) if isinstance(e, tuple) else e for e in exp],
@@ -835,6 +871,11 @@ def check(ctx, lexicons, texts, hists, c2r_strings=()):
                             bad = bad or g not in ("EOF", "ERR")
                 if bad:
                     kl = classify(lx, t)
+                    if kl == "any_duplicate_chars" and not C2R_DEDUP:
+                        if rules_w is None:
+                            rules_w, memo_w = [o_of(widen(r)) for r in lx], {}
+                        if not events_agree(got, oracle_events(rules_w, t, ntok, memo_w)):
+                            kl = "wrong_token"
                     nfail[kl] = nfail.get(kl, 0) + 1
                     if nfail[kl] <= 10 or kl == "any_duplicate_chars":
                         ctx.fail(kl, inp, got, [list(e) if isinstance(e, tuple) else e for e in exp2],
